@@ -87,6 +87,13 @@ pub fn run_tamper(args: &[String]) {
                 if rv != cur { jobs.push(Job { subj: si, path: p.clone(), kind: "random", value: Some(rv) }); }
                 let z = replace_with(&cur, Felt::ZERO, 0);
                 if z != cur { jobs.push(Job { subj: si, path: p.clone(), kind: "zero", value: Some(z) }); }
+                // same low bits, different high bits (digest widths 160 / 248): only meaningful for field elements of the witness / messages
+                if cur.is_string() && (path_str(&p).starts_with("witness") || path_str(&p).starts_with("unsent")) {
+                    for (k, name) in [(160u64, "hi160"), (248u64, "hi248")] {
+                        let f = Felt::from_hex(cur.as_str().unwrap()).unwrap() + Felt::TWO.pow(k);
+                        jobs.push(Job { subj: si, path: p.clone(), kind: name, value: Some(json!(format!("{:#x}", f))) });
+                    }
+                }
             }
         }
         for a in arrays {
@@ -215,6 +222,21 @@ pub fn recipes(subs: &[Subject], rng: &mut Rng, numbers_everywhere: bool) -> Vec
             e2.push((lns.clone(), Edit::Set(hexv(felt_at(&lns) + df))));
             out.push(Recipe { subj: si, label: format!("redeclare:log_trace+{d}"), edits: e2 });
         }
+        // segment lengths at extreme values (stop_ptr = begin_addr + X), alone and with the execution segment at the top of the address range
+        let nseg = s.proof["public_input"]["segments"].as_array().map(|a| a.len()).unwrap_or(0);
+        let seg = |i: usize, k: &str| -> Path { vec![Seg::Key("public_input".into()), Seg::Key("segments".into()), Seg::Idx(i), Seg::Key(k.into())] };
+        let t64 = Felt::TWO.pow(64u64);
+        for i in 0..nseg {
+            let b = felt_at(&seg(i, "begin_addr"));
+            for (lab, x) in [("2^64-1", t64 - Felt::ONE), ("2^64-2", t64 - Felt::TWO), ("2^63", Felt::TWO.pow(63u64)), ("2^64", t64), ("p-1", Felt::ZERO - Felt::ONE)] {
+                out.push(Recipe { subj: si, label: format!("segment[{i}].len={lab}"), edits: vec![(seg(i, "stop_ptr"), Edit::Set(hexv(b + x)))] });
+                if nseg > 1 && i != 1 {
+                    out.push(Recipe { subj: si, label: format!("segment[{i}].len={lab} & execution.begin=2^64-2"),
+                        edits: vec![(seg(i, "stop_ptr"), Edit::Set(hexv(b + x))), (seg(1, "begin_addr"), Edit::Set(hexv(t64 - Felt::TWO)))] });
+                }
+            }
+        }
+        if nseg > 1 { for v in [t64 - Felt::TWO, t64 - Felt::THREE] { out.push(Recipe { subj: si, label: format!("execution.begin={:#x}", v), edits: vec![(seg(1, "begin_addr"), Edit::Set(hexv(v)))] }); } }
         // one more FRI layer declared, nothing supplied for it
         let nl = cfg(&["fri", "n_layers"]);
         out.push(Recipe { subj: si, label: "redeclare:n_layers+1".into(), edits: vec![(nl.clone(), Edit::Set(hexv(felt_at(&nl) + Felt::ONE)))] });
